@@ -60,7 +60,7 @@ def idealVerify (w : World) (key : Nat) (h : Hash) (p : SigPad) (data sig : Byte
   w.contains ⟨key, h, p, data, sig⟩
 
 inductive Status where
-  | good | badSecurityChecksFailed | badUnexpectedError
+  | good | badSecurityChecksFailed | badUnexpectedError | badCertificateInvalid
 deriving Repr, DecidableEq
 
 inductive Outcome (α : Type) where
@@ -111,5 +111,14 @@ def verify (w : World) (sd : SigData) (policy : Policy) (signingKey : Option Nat
     | some (h, p) =>
       if idealVerify w k h p (concat cert nonce) (sd.signature.getD []) then .ok .good
       else .ok .badSecurityChecksFailed
+
+/-- `user_identity::verify_x509_identity_token(token, signature, policy, server_cert, server_nonce)`:
+the signing certificate is parsed out of the token (`tokenKey = none`: null or not DER →
+BadCertificateInvalid), then `verify_signature_data`; Good becomes `Ok(())`, anything else `Err`. -/
+def verifyX509Token (w : World) (sd : SigData) (policy : Policy) (tokenKey : Option Nat)
+    (cert nonce : Bytes) : Outcome Status :=
+  match tokenKey with
+  | Option.none => .ok .badCertificateInvalid
+  | some k => verify w sd policy (some k) cert nonce
 
 end OpcuaVerif.C17
